@@ -7,7 +7,10 @@ NOTES = (
     "(plus the Jinja templates and docs) and never imports or executes xsdata. Claims are limited to named structural "
     "necessary conditions of each property (see DESIGN.md section 4 and each evidence file's 'decides' / 'not_decided'). "
     "Exit 2 + 'ANALYSIS-ERROR' means the checker could not analyse the tree (anchor vanished, instance floor missed), "
-    "never a violation. Genuine defects recorded rather than repaired are in known_findings.json."
+    "never a violation. Genuine defects recorded rather than repaired are in known_findings.json. Rules are phrased over a normalised "
+    "view of each function (conditional expressions / match / walrus / tuple assignment normalised, private and newly extracted helpers "
+    "inlined) with control-dependence, reaching-definition and value-flow queries - never over source fragments; the thorough tier replays "
+    "mutants, 71 seeded property-breaking changes, four whole-package behaviour-preserving twins and 220 neutral refactorings (DESIGN.md section 6)."
 )
 
 _STATIC_NOTE = (
